@@ -32,7 +32,7 @@ THEOREMS = ["EngineModel.Properties.C17." + t for t in [
     "mutation_deviates", "mutation_changes", "C17_complete_validator_rejects",
     "C17_closed_tables_unique", "C17_closed_tables_complete",
     "open_block_counterexample", "uncovered_index_counterexample", "sameCat_iff_plain"]] + [
-    "EngineModel.Properties.C17Tables." + t for t in ["tables_closed", "C17_tables_complete", "C17_tables_unique"]]
+    "EngineModel.Properties.C17Tables." + t for t in ["tables_closed", "C17_tables_complete", "C17_tables_unique", "C17_library_complete"]]
 ASSUMPTIONS = [
     "what verify() can look at is the structural catalog: sqlite_master names of tables and views, PRAGMA table_info "
     "of tables, PRAGMA index_list / index_info; SQLite's answers to these are trusted (read through the C API by "
@@ -55,8 +55,14 @@ MANIFEST = dict(
          "counterexamples for an open block and an uninspected index. The hand-written tables of every version are extracted from "
          "schema_*.cpp on every run (tools/tr_validators.py: regex translator with virtual dispatch resolved, fails closed) into "
          "Gen/ValidatorTables.lean; tables_closed (decide +kernel) + C17_tables_complete: the real tables of all versions reject every "
-         "single-element mutation of any well-formed catalog they accept; that they accept (and equal expOf of) the catalog their creator "
-         "creates is evaluated every run, and the Lean model of the real validator must agree with the real verify() on every mutant. "
+         "single-element mutation of any well-formed catalog they accept (C17_library_complete lifts this to the music + perfdata pair of "
+         "1.x). The catalogs the real creators create and the 57 reference catalogs are emitted as Lean data every run "
+         "(Gen/CatalogFacts.lean) and Properties/C17Facts.lean closes by decide +kernel: created_accepted / references_accepted (each "
+         "version's tables accept its created catalog and every reference catalog of the version; all well formed), hence "
+         "C17_created_complete: for every version and database file, the version's own tables reject every applicable single-element "
+         "mutation of the catalog its creator creates, and C17_references_structure (rebuilt by lake only when the facts changed; "
+         "kernel_facts.status = skipped beyond the tier's budget). The Lean model of the real validator must also agree with the real "
+         "verify() on every mutant. "
          "Decision on the real code: every single-element mutation of the created catalog "
          "(about 1000-1250 per version; all 18 versions in thorough tier, 3 complete + a stratified sample of the rest in quick tier) is "
          "rebuilt from mutated DDL and the real verify() must throw database_inconsistency exactly when the catalog read back deviates "
@@ -627,33 +633,152 @@ def run_schema(schema, select, ctx, extracted=None):
     return res
 
 
+ALL_CLASSES = SCHEMAS + ["schema_3_0_0"]     # 3.0.0 is shipped (and has extracted tables) but is not among the 18 supported
+
+
 def accepting_side(schemas):
-    """created (temporary, on-disk, reloaded) and every reference library must pass verify()"""
+    """created (temporary, on-disk, reloaded) and every reference library must pass verify(); also returns the catalogs
+    read back (created per class, reference per dump with the schema the library loaded it as) for the kernel facts"""
     scripts, keys = [], []
-    for s in schemas:
-        scripts.append(["create %s mem" % s, "db.q verify", "create %s disk" % s, "db.q verify", "load", "db.q verify"])
+    for s in ALL_CLASSES:
+        scripts.append(["create %s mem" % s, "db.q verify", "schema.dump", "create %s disk" % s, "db.q verify", "load", "db.q verify"])
         keys.append(("c", s))
     refs = []
     for d in sorted(glob.glob(os.path.join(REFBASE, "*", "*"))):
         if os.path.exists(os.path.join(d, "m.db.sql")) or os.path.exists(os.path.join(d, "Database2", "m.db.sql")):
             refs.append(os.path.relpath(d, REFBASE))
     for rel in refs:
-        scripts.append(["schema.refload " + hexs(os.path.join(REFBASE, rel))])
+        scripts.append(["schema.refload " + hexs(os.path.join(REFBASE, rel)), "schema.ref " + hexs(os.path.join(REFBASE, rel))])
         keys.append(("r", rel))
     viol, n = [], 0
-    for k, (o, _) in zip(keys, runner.run_harness(scripts, watchdog=60)):
-        n += 1
+    cats = {"created": {}, "reference": []}
+
+    def cat_of(line):
+        toks = line.split(" ")
+        return " ".join(toks[toks.index("M"):]) if line.startswith("ok ") and "M" in toks else None
+    for k, sc, (o, _) in zip(keys, scripts, runner.run_harness(scripts, watchdog=60)):
         if k[0] == "c":
-            good = o[1] == "ok" and o[3] == "ok" and o[5] == "ok"
+            good = o[1] == "ok" and o[4] == "ok" and o[6] == "ok"
             name = k[1]
+            if cat_of(o[2]):
+                cats["created"][k[1]] = cat_of(o[2])
+            if k[1] not in schemas:
+                continue          # 3.0.0: catalog wanted for the facts, verdict not claimed
         else:
             good = o[0].startswith("ok ") and o[0].endswith("verify=ok")
             name = "ref " + k[1]
+            if good and cat_of(o[1]):
+                cats["reference"].append((k[1], o[0].split(" ")[1], cat_of(o[1])))
+        n += 1
         if not good:
             viol.append({"tag": "accept", "signature": {"kind": "accepting-side", "object": name},
                          "header": {"kind": "accept", "what": "verify() rejects a created / reference library: " + name},
-                         "body": ["object: " + name] + scripts[keys.index(k)] + [x[:300] for x in o]})
-    return viol, n, len(refs)
+                         "body": ["object: " + name] + sc + [x[:300] for x in o]})
+    return viol, n, len(refs), cats
+
+
+# ------------------------------------------------------------------ the accepting side and the per-version statement in the kernel
+CATFACTS = os.path.join(LEAN, "EngineModel", "Gen", "CatalogFacts.lean")
+FACTS_BUDGET_S = {"quick": int(os.environ.get("VERIF_C17_KERNEL_BUDGET_QUICK", "60")),
+                  "thorough": int(os.environ.get("VERIF_C17_KERNEL_BUDGET", "900"))}
+FACT_THEOREMS = ["EngineModel.Properties.C17Facts." + t for t in
+                 ("created_accepted", "references_accepted", "created_cover", "C17_created_complete", "C17_references_structure")]
+
+
+def _lit(s):
+    return '(bytes% "' + (s.encode("utf-8", "surrogateescape").hex()) + '")'
+
+
+def _olit(s):
+    return "none" if s is None else "(some %s)" % _lit(s)
+
+
+def _dump_lean(text):
+    M, T, X = parse_dump(Toks(text.split(" ")))
+    tabs = {(db, n) for db, ty, n, tb in M if ty == "table"}
+    m = ", ".join("⟨%s, %s, %s, %s, none⟩" % (_lit(db), _lit(ty), _lit(n), _lit(tb)) for db, ty, n, tb in M if ty in ("table", "view"))
+    t = ", ".join("⟨%s, %s, [%s]⟩" % (_lit(db), _lit(tb), ", ".join(
+        "⟨%s, %s, %d, %s, %d⟩" % (_lit(c[0]), _lit(c[1]), c[2], _olit(c[3]), c[4]) for c in cols)) for (db, tb), cols in T.items() if (db, tb) in tabs)
+    x = ", ".join("⟨%s, %s, [%s]⟩" % (_lit(db), _lit(tb), ", ".join(
+        "⟨%s, %d, %s, %d, [%s]⟩" % (_lit(i[0]), i[1], _lit(i[2]), i[3], ", ".join("⟨%d, %s⟩" % (sq, _olit(c)) for sq, c in i[4])) for i in idx))
+        for (db, tb), idx in X.items() if (db, tb) in tabs)
+    return "⟨[%s],\n   [%s],\n   [%s]⟩" % (m, t, x)
+
+
+def emit_catalog_facts(extracted, cats):
+    entries = [(v, l) for v in sorted(extracted) for l in sorted(extracted[v])]      # the order of ValidatorTables.all
+    pos = {e: k for k, e in enumerate(entries)}
+    dumps, index, names = [], {}, []
+
+    def did(text, name):
+        if text not in index:
+            index[text] = len(dumps)
+            dumps.append(text)
+            names.append([])
+        names[index[text]].append(name)
+        return index[text]
+    created, reference = [], []
+    for v, text in sorted(cats["created"].items()):
+        for (vv, l), k in pos.items():
+            if vv == v:
+                created.append((k, did(text, "created " + v)))
+    for rel, v, text in cats["reference"]:
+        for (vv, l), k in pos.items():
+            if vv == v:
+                reference.append((k, did(text, "ref " + rel)))
+    L = ["/- GENERATED by tools/props/C17.py from the catalogs read back (sqlite_master names, PRAGMA table_info / index_list /",
+         "index_info; no DDL text) from the libraries the real code created and from the hydrated reference dumps.  Do not edit. -/",
+         "import EngineModel.Spec.SchemaDump", "import EngineModel.Spec.BytesLit", "namespace EngineModel.Gen.CatalogFacts",
+         "open EngineModel.Spec.SchemaDump", "set_option maxRecDepth 1000000", "set_option maxHeartbeats 4000000", ""]
+    for j, text in enumerate(dumps):
+        L.append("/-- %s -/" % "; ".join(names[j])[:400])
+        L.append("noncomputable def c%d : Dump :=\n  %s" % (j, _dump_lean(text)))
+    L.append("noncomputable def dumps : List Dump := [%s]" % ", ".join("c%d" % j for j in range(len(dumps))))
+    L.append("/-- (index into ValidatorTables.all, index into dumps): the catalog the creator of that version creates -/")
+    L.append("def createdFacts : List (Nat × Nat) := [%s]" % ", ".join("(%d, %d)" % f for f in sorted(set(created))))
+    L.append("/-- … and the reference catalogs the library loads as that version -/")
+    L.append("def referenceFacts : List (Nat × Nat) := [%s]" % ", ".join("(%d, %d)" % f for f in sorted(set(reference))))
+    L.append("end EngineModel.Gen.CatalogFacts")
+    new = "\n".join(L) + "\n"
+    try:
+        old = open(CATFACTS).read()
+    except OSError:
+        old = None
+    if old != new:
+        with open(CATFACTS, "w") as f:
+            f.write(new)
+    return {"catalogs": len(dumps), "created_facts": len(set(created)), "reference_facts": len(set(reference)), "entries": len(entries)}
+
+
+def kernel_facts(extracted, cats, tier):
+    import subprocess
+    t0 = time.time()
+    if not extracted:
+        return {"status": "skipped", "why": "the validator tables could not be translated"}
+    try:
+        stats = emit_catalog_facts(extracted, cats)
+    except Exception as e:
+        return {"status": "failed", "why": "emitting the facts: %r" % (e,)}
+    try:
+        p = subprocess.run(["lake", "build", "Properties.C17Facts"], cwd=LEAN, stdout=subprocess.PIPE, stderr=subprocess.STDOUT,
+                           text=True, timeout=FACTS_BUDGET_S[tier])
+    except subprocess.TimeoutExpired:
+        subprocess.run(["pkill", "-f", "Properties/C17Facts.lean"])
+        subprocess.run(["pkill", "-f", "Gen/CatalogFacts.lean"])
+        return dict(stats, status="skipped", wall_s=round(time.time() - t0, 1),
+                    why="the emitted facts differ from the last ones the kernel closed, and re-closing them exceeded the %s-tier budget "
+                        "of %d s (reported, not silent; the compiled model evaluated the same acceptances this run)" % (tier, FACTS_BUDGET_S[tier]))
+    if p.returncode != 0:
+        return dict(stats, status="failed", why=p.stdout[-1500:], wall_s=round(time.time() - t0, 1))
+    import audit as auditmod
+    ax = auditmod.axioms_and_statements(FACT_THEOREMS, imports=("Properties.C17Facts",))
+    allowed = {"propext", "Classical.choice", "Quot.sound"}
+    bad = [n for n in FACT_THEOREMS if ax[n].get("axioms") is None or not set(ax[n]["axioms"]) <= allowed]
+    lock = auditmod.load_lock("C17Facts")
+    stale = [n for n in FACT_THEOREMS if lock.get(n) != ax[n].get("stmt_sha")]
+    if bad or stale:
+        return dict(stats, status="failed", why="axioms / statement lock: %r %r" % (bad, stale), wall_s=round(time.time() - t0, 1))
+    return dict(stats, status="ok", wall_s=round(time.time() - t0, 1), theorems={n: ax[n].get("axioms") for n in FACT_THEOREMS})
 
 
 def full_versions(seed):
@@ -705,9 +830,13 @@ def tie(ctx):
         samples += r["samples"][:1]
         for k, v in r["hist"].items():
             hist[k] = hist.get(k, 0) + v
-    av, an, nrefs = accepting_side(SCHEMAS)
+    av, an, nrefs, cats = accepting_side(SCHEMAS)
     violations += av
     hist["accepting-side-libraries"] = an
+    kf = kernel_facts(extracted, cats, ctx.tier)
+    if kf["status"] == "failed":
+        divergences.append({"input": "Properties/C17Facts.lean over Gen/CatalogFacts.lean + Gen/ValidatorTables.lean", "impl": "(n/a)",
+                            "model": "the kernel does not close the acceptance facts: " + str(kf.get("why"))[-600:]})
     try:
         known = [k.get("signature") for k in json.load(open(os.path.join(VERIF, "known_findings.json")))["known"]
                  if k.get("property") == ID]
@@ -729,7 +858,7 @@ def tie(ctx):
         "exhaustive": ctx.tier == "thorough",
         "extra": {"mutants_run_of_enumerated": enumerated, "complete_enumeration_on": sorted(full),
                   "reference_libraries": nrefs, "wall_tie_s": round(time.time() - t0, 1),
-                  "validator_tables_translator": tr_status},
+                  "validator_tables_translator": tr_status, "kernel_facts": kf},
     }
 
 
@@ -759,3 +888,8 @@ def replay(ctx, hdr, body):
         ok = False
         txt.append("could not re-run the recorded mutant")
     return ok, "\n".join(txt)
+
+
+if __name__ == "__main__" and sys.argv[1:] == ["lock-facts"]:
+    import audit as auditmod
+    print(auditmod.write_lock("C17Facts", FACT_THEOREMS, imports=("Properties.C17Facts",)))
